@@ -1,6 +1,7 @@
 //! vdrive: conformance driver binding the TLA+ specification in /verif/spec to the crates built
 //! from /repo's working tree.  `replay` feeds TLC-generated vectors into the real public API;
 //! `record` drives the real code and writes ndjson events for TLC trace validation.
+mod cfm;
 mod chunkid;
 mod common;
 mod datetime;
@@ -23,6 +24,7 @@ fn main() {
     let args = Args::parse();
     match args.module.as_str() {
         "sweep" => sweep::run(&args),
+        "cfm" => cfm::run(&args),
         "rda" => rda::run(&args),
         "vcp" => vcp::run(&args),
         "frames" => frames::run(&args),
